@@ -29,7 +29,7 @@ func (ex *Exec) stepCall(st *State, c *ssa.Call) []*State {
 		if h == nil {
 			ex.failObl("dep", "uncontracted/"+name, "interface method without an assumed contract", ex.fnTags(), c)
 			st.vals[c] = ex.freshOfType(st, "r_"+cc.Method.Name(), c.Type(), false)
-			ex.havocAll(st)
+			ex.havocReachable(st, args)
 			return nil
 		}
 		ex.p.usedDeps[name] = true
@@ -72,6 +72,67 @@ func (ex *Exec) havocAll(st *State) {
 	for g, sv := range st.globals {
 		st.globals[g] = ex.havocByKind(st, sv, "g_"+g.Name()+"_hv")
 	}
+}
+
+// havocReachable forgets the contents of every heap object handed to an
+// unknown dependency function (and lets it allocate).
+func (ex *Exec) havocReachable(st *State, args []SV) {
+	if k, ok := modelInt(st.next.S); ok && isAtom(st.next.S) {
+		// concrete allocation counter (package initialiser): keep it concrete
+		st.next = IntLit(k.Int64() + 16)
+	} else {
+		n := ex.fresh("next_hv", SInt)
+		st.assume(Ge(n, st.next))
+		st.next = n
+	}
+	upd := func(h string, ref Term) {
+		elem := elemSortOfArray(heapSort[h])
+		st.heap[h] = ex.define(st, h, Store(st.heap[h], ref, ex.fresh(h+"_unk", elem)))
+	}
+	var visit func(a SV)
+	visit = func(a SV) {
+		switch a.K {
+		case KSlice:
+			if a.Cell != nil {
+				return
+			}
+			switch a.Elem {
+			case "byte":
+				upd("BMem", a.Ref)
+			case "string":
+				upd("SMem", a.Ref)
+			}
+		case KScalar:
+			if a.T.Sort == SInt && !isAtom(a.T.S) || (a.T.Sort == SInt && isAtom(a.T.S) && !isNumeral(a.T.S)) {
+				// a reference of unknown class: any object it may denote
+				for _, h := range []string{"BigVal", "MDom", "MVal", "HAcc", "RPos"} {
+					upd(h, a.T)
+				}
+			}
+		case KTuple:
+			for _, x := range a.Tuple {
+				visit(x)
+			}
+		case KStruct:
+			for _, x := range a.Fields {
+				visit(x)
+			}
+		case KPtr:
+			if a.Ptr != nil && a.Ptr.Kind == PCell {
+				if cur, ok := st.cells[a.Ptr.Cell]; ok && cur.K == KScalar {
+					st.cells[a.Ptr.Cell] = Scalar(ex.fresh("cell_unk", cur.T.Sort))
+				}
+			}
+		}
+	}
+	for _, a := range args {
+		visit(a)
+	}
+}
+
+func isNumeral(s string) bool {
+	_, ok := modelInt(s)
+	return ok
 }
 
 func (ex *Exec) havocByKind(st *State, sv SV, base string) SV {
@@ -185,8 +246,14 @@ func (ex *Exec) callStatic(st *State, c *ssa.Call, callee *ssa.Function, args []
 	h := deps[full]
 	if h == nil {
 		ex.failObl("dep", "uncontracted/"+full, "call to a dependency function without an assumed contract", ex.fnTags(), c)
-		st.vals[c] = ex.freshOfType(st, "r_"+callee.Name(), c.Type(), false)
-		ex.havocAll(st)
+		rsv := ex.freshOfType(st, "r_"+callee.Name(), c.Type(), false)
+		if cl := classify(c.Type()); ex.isInit && cl.What == "iface" && rsv.K == KScalar {
+			st.assume(And(Gt(rsv.T, IntLit(0)), Lt(rsv.T, IntLit(20))))
+		}
+		st.vals[c] = rsv
+		// a function of another package can only reach what it is handed: the
+		// objects reachable from its arguments become unknown, nothing else
+		ex.havocReachable(st, args)
 		return nil
 	}
 	ex.p.usedDeps[full] = true
@@ -210,11 +277,19 @@ func (ex *Exec) callOnceDo(st *State, c *ssa.Call, a []SV) []*State {
 	s1.assume(done)
 	s1.vals[c] = SV{K: KUnit}
 	st.assume(Not(done))
+	ex.inOnce = true
 	forks := ex.callContract(st, c, a[1].Fn, nil)
+	ex.inOnce = false
 	out := []*State{s1}
 	finish := func(s *State) {
 		s.heap["Done"] = ex.define(s, "Done", Store(s.heap["Done"], id, TTrue))
 		s.vals[c] = SV{K: KUnit}
+		// the builder ran to completion and the Once is now done: the global
+		// invariants hold again (the builder's exit obligations prove them in
+		// exactly this state)
+		for _, inv := range ex.p.Contracts.Invariants {
+			s.assume(ex.specBool(s, inv.Expr, &specCtx{mode: "exitinv"}))
+		}
 		out = append(out, s)
 	}
 	if forks == nil {
@@ -231,6 +306,17 @@ func (ex *Exec) callOnceDo(st *State, c *ssa.Call, a []SV) []*State {
 func (ex *Exec) callContract(st *State, c *ssa.Call, callee *ssa.Function, args []SV) []*State {
 	name := ex.p.contractName(callee)
 	fc := ex.p.Contracts.Funcs[name]
+	if fc == nil && ex.isInit {
+		// an initialiser computed by an in-package function: its value is unknown here
+		ex.failObl("contract", "uncontracted-initialiser/"+name, "package-level variable initialised by a function without contract", []string{"C07", "C14"}, c)
+		sv := ex.freshOfType(st, "init_"+callee.Name(), c.Type(), false)
+		if cl := classify(c.Type()); cl.What == "iface" && sv.K == KScalar {
+			// assumption: an initialiser of interface type yields a non-nil value
+			st.assume(And(Gt(sv.T, IntLit(0)), Lt(sv.T, IntLit(20))))
+		}
+		st.vals[c] = sv
+		return nil
+	}
 	if fc == nil {
 		ex.failObl("contract", "uncontracted-callee/"+name, "in-package callee without contract", ex.fnTags(), c)
 		st.vals[c] = ex.freshOfType(st, "r_"+callee.Name(), c.Type(), false)
@@ -317,8 +403,10 @@ func (ex *Exec) callContract(st *State, c *ssa.Call, callee *ssa.Function, args 
 	for _, e := range fc.Derives {
 		st.assume(ex.specBool(st, e.Expr, ctxPost))
 	}
-	for _, inv := range ex.p.Contracts.Invariants {
-		st.assume(ex.specBool(st, inv.Expr, &specCtx{mode: "exitinv"}))
+	if !ex.inOnce {
+		for _, inv := range ex.p.Contracts.Invariants {
+			st.assume(ex.specBool(st, inv.Expr, &specCtx{mode: "exitinv"}))
+		}
 	}
 	ex.p.usedContracts[name] = true
 	return ex.applySplitsOrNil(st, fmt.Sprintf("after call %s#%d", shortName(name), k), c)
